@@ -63,7 +63,7 @@ POISONS = {
                                           'len([s.nope for r in rows for s in orders]) == 0'],
     'falsy-non-number-divisor': ['amount / field.nope < 5', 'amount / "" < 5', 'amount % "" == 0', '10 / description.strip("abcdefghijklmnopqrstuvwxyzABCDEFGHIJKLMNOPQRSTUVWXYZ0123456789 .-*#\'") < 1'],
 }
-REF_DECIDES = {'failing-row-in-list-comprehension', 'unknown-name'}
+REF_DECIDES = {'failing-row-in-list-comprehension', 'unknown-name', 'falsy-non-number-divisor', 'division-type', 'arithmetic-on-strings'}
 POSITIONS = ['match-whole', 'match-and', 'match-or', 'let-extra', 'field-extra', 'tag-extra', 'transform', 'variable']
 
 VIEW_POISONS = ['sum(by("month")) > 100', 'category > 5', 'payments > 3', 'months + "x" > 1', 'nosuchvar > 1', 'total / category > 1',
@@ -178,7 +178,7 @@ def judge(rec, rf, cls, poison, pos, txns, rows, tmp, rnd):
             if cls in REF_DECIDES:
                 try:
                     lang.Ref(tt, {}, rows).eval_str(poison)
-                except lang.RefError:
+                except (lang.RefError, TypeError):
                     rec.count('reference_says_unevaluable_checks')
                     rec.violation('unevaluable-expression-yields-a-value:' + cls, f'{poison!r} has no value for {txn.get("description")!r} (reference interpreter: not evaluable) '
                                   f'but the implementation evaluates it', case)
